@@ -254,7 +254,7 @@ def gen_case(rng):
             q = rng.choice([path, path[1:], "x" + path, path + "\n", "", path[1:] + "/"])
             lines.append("match %s" % hx(q))
         else:
-            lines.append("serve %s" % hx(path))
+            lines.append("%s %s" % ("served" if rng.random() < 0.1 else "serve", hx(path)))
     return lines, meta
 
 
@@ -286,6 +286,21 @@ def gen_systematic():
         lines = ["reset", "route %s h1" % hx(t), "routef %s h2" % hx(t)] + ["serve %s" % hx(p) for p in ODD_PATHS[:14]]
         lines.append("unroute %s" % hx(t))
         cases.append((lines, {"meta_literal": False, "invalid": 1, "templates": [t]}))
+    # sequences through the server-side adapter: a route with variables, then routes with fewer / other / no variables,
+    # then paths nothing matches (default handler) — each handler must see the variables of its own request only
+    seqs = [(["/rooms/{room}/lamps/{lamp}", "/rooms/{room}", "/version"],
+             ["/rooms/r1/lamps/l2", "/rooms/r7", "/version", "/nothing/here", "", "/rooms/r9", "/rooms/a/lamps/b", "/version"]),
+            (["/{a}/{b}/{c}", "/{a}/{b}", "/{z}", "/"], ["/1/2/3", "/4/5", "/6", "/", "", "/7/8/9/10", "/1/2/3", "/x"]),
+            (["/u/{id:[0-9]+}", "/u/{name:[a-z]+}", "/u/me"], ["/u/12", "/u/bob", "/u/me", "/u/Bob", "/u/7", "/u/me", "/q"]),
+            (["/{v}", "/{w}x", "/lit"], ["/ab", "/abx", "/lit", "/", "/q/r", "/lit", "/cx"])]
+    for ts, ps in seqs:
+        for dflt in (None, "default d1", "default nil"):
+            lines = ["reset"] + ["route %s h%d" % (hx(t), i) for i, t in enumerate(ts)] + ([dflt] if dflt else [])
+            for rep in range(3):
+                for q in ps:
+                    lines.append("serve %s" % (hx(q) if q else "none"))
+            lines += ["mw m1"] + ["serve %s" % (hx(q) if q else "none") for q in reversed(ps)]
+            cases.append((lines, {"meta_literal": False, "invalid": 0, "templates": ts}))
     for d in ["default nil", "defaultf nil", "default d1", "defaultf d2"]:
         lines = ["reset", "mw m1", "mw m2", d, "serve none", "serve %s" % hx("/"), "serve %s" % hx("/a"), "route - h1", "serve none",
                  "serve %s" % hx("/"), "serve %s" % hx("//"), "unroute %s" % hx("/"), "unroute -", "serve none", "routef %s nil" % hx("/a"),
@@ -376,7 +391,7 @@ def explore(ctx, art):
         ci = owner[i]
         op = l.split()[0]
         ctx.count("op-" + op)
-        if op in ("serve", "match"):
+        if op in ("serve", "served", "match"):
             ctx.cov["evaluations"] += 1
             ctx.count("out-" + o.split()[0])
         elif op in ("route", "routef", "unroute"):
@@ -401,7 +416,7 @@ def explore(ctx, art):
                     pat = unhx(l.split()[1]) if len(l.split()) > 1 and l.split()[1] not in ("none",) and op != "mw" and op not in ("default", "defaultf") else ""
                     ctx.broken.append(("correspondence", "C17 model vs implementation",
                                        "case %d `%s` (%r): impl `%s` model `%s`; case: %s" % (ci, l, pat, o[:300], m[:300], " ; ".join(cases[ci][0][:40]))))
-            if op in ("serve", "match") and " ## " in m:
+            if op in ("serve", "served", "match") and " ## " in m:
                 k = int(m.rsplit(" ## ", 1)[1])
                 ctx.count("matching-%s" % (k if k < 4 else "4+"))
                 if " || " in m:
@@ -410,12 +425,18 @@ def explore(ctx, art):
                     nontrivial.add((tuple(cases[ci][0][:cases[ci][0].index(l) if l in cases[ci][0] else 0]), l))
     for ci, (clause, what) in list(bad_cases.items())[:6]:
         ls, meta = cases[ci]
+        # state can leak from earlier cases (process-wide pools): make the replay self-contained
+        back = 0
+        while first_bad(art, ls) is None and back < 3 and ci - back - 1 >= 0:
+            back += 1
+            ls = cases[ci - back][0] + ls
         mini = minimise(art, ls, clause) if not clause.startswith("no-crash") else ls
         sig = "C17:%s" % clause
         ctx.violations.append(common.Violation(clause, sig, what, {"input": mini, "templates": [unhx(l.split()[1]) for l in mini if l.split()[0] in ("route", "routef")]}))
     ctx.cov["distinct_nontrivial"] = len(nontrivial)
     ctx.cov["traces_validated_against_impl"] = len(cases)
-    ctx.cov["rule"] = ("one evaluation = one dispatch (serve through ServeCOAP with Uri-Path options, or Router.Match directly) after a "
+    ctx.cov["rule"] = ("one evaluation = one dispatch (serve: through mux.ToHandler, the servers' adapter, requests of a case one after another; "
+                       "served: Router.ServeCOAP directly; match: Router.Match directly) after a "
                        "sequence of route/routef/unroute/default/mw operations on a fresh real mux.Router. Non-trivial = at least two "
                        "registered patterns match the path, or a registered template has a regex metacharacter in a literal; distinct by "
                        "(operation prefix, request). The implementation's answer must be among the model's outcomes over all map "
@@ -503,7 +524,7 @@ def replay(ctx, rep):
     bad = 0
     for l, o, m, j in zip(lines, impl, model, judge):
         f = l.split()
-        shown = f[0] + " " + (repr(unhx(f[1])) if len(f) > 1 and f[0] in ("route", "routef", "unroute", "serve", "match") and f[1] != "none" else " ".join(f[1:2])) + " " + " ".join(f[2:])
+        shown = f[0] + " " + (repr(unhx(f[1])) if len(f) > 1 and f[0] in ("route", "routef", "unroute", "serve", "served", "match") and f[1] != "none" else " ".join(f[1:2])) + " " + " ".join(f[2:])
         print("%s: implementation `%s`  model `%s`  judge `%s`" % (shown, o[:200], m[:200], j))
         if j.startswith("violates") or o.startswith("panic other"):
             bad += 1
